@@ -230,6 +230,16 @@ static void probe(void *vs)
         if ((c ? 1 : 0) != (at >= 0)) FAIL(site("contains"), "model:return", sh, "contains(%c)=%d", LAB[x], (int) c);
         SPIF_OBJ_DEL(p);
     }
+    /* the same questions asked with a stored element itself as the key (the object get(i) hands out): the answer is still the FIRST equal element */
+    for (int i = 0; i < n; i++) {
+        if (!s->e[i]) continue;
+        int at = -1; for (int k = 0; k < n; k++) if (s->e[k] && s->lab[k] == s->lab[i]) { at = k; break; }
+        const char *sh = at == i ? "stored element, no equal element before it" : "stored element with an equal element before it";
+        int gi = (int) SPIF_LIST_INDEX(l, s->e[i]);
+        if (gi != at) FAIL(site("index"), "model:return", sh, "index(element stored at %d)=%d, the first equal element is at %d", i, gi, at);
+        if (SPIF_LIST_FIND(l, s->e[i]) != s->e[at]) FAIL(site("find"), "model:return", sh, "find(element stored at %d) did not return the first equal stored element (position %d)", i, at);
+        if (!SPIF_LIST_CONTAINS(l, s->e[i])) FAIL(site("contains"), "model:return", sh, "contains(element stored at %d) is FALSE", i);
+    }
     { spif_obj_t *a = SPIF_LIST_TO_ARRAY(l);
       if (n && !a) FAIL(site("to_array"), "model:return", shape, "to_array returned NULL");
       else { for (int i = 0; i < n; i++) if (a[i] != s->e[i]) { FAIL(site("to_array"), "model:order", shape, "to_array[%d] differs", i); break; } }
